@@ -596,6 +596,10 @@ def plan_C08(p, tier, seed):
     for m in ("read", "readline"):
         p.func(W + m)
     p.func(H + "get_bits")
+    # the inspection of a returned message goes through these getters' contracts in the instance units: their bodies are
+    # verified here (for every message object, with and without payload)
+    for f in ("serialize", "__repr__", "length", "payload", "msgmode", "msg_cls", "msg_id"):
+        p.func(M + f)
     _instance_units(p, r"/(raises:|C08:|.*loop1:decreases)")
     p.add(BoundedUnit("bounded.C08/str-of-messages", bounded.str_of_messages, (tier, seed), props=("C08",)))
     p.add(BoundedUnit("bounded.C08/dependency-parsers", bounded.dependency_parsers, (tier, seed), props=("C08",)))
